@@ -132,6 +132,20 @@ def handleLine (st : Option TdfSt) (line : String) : Option TdfSt × String :=
       | none => (st, "(bad-op)")
     else match cmd, args with
       | "file.check", [.hex b] => (st, (fileCheck b).render)
+      | "entry.enc", [.list [t, f, o, sz, cd, md, ad, cm]] =>
+        let r := do
+          let e : Entry := ⟨← t.nat?, ← f.nat?, ← o.int?, ← sz.int?, ← cd.int?, ← md.int?, ← ad.int?, ← cm.nats?⟩
+          pure (V.list [.sym "ok", .hex e.enc, .int (if e.valid then 1 else 0)])
+        (st, match r with | some v => v.render | none => "(bad-op)")
+      | "entry.dec", [.hex b] =>
+        (st, match Entry.dec.runM b with
+          | some (e, m, _) => (V.list [.sym "ok", entryV e, .hex (Wire.maskBytes m)]).render
+          | none => (V.err "raised").render)
+      | "header.dec", [.hex b] =>
+        (st, match Header.dec.runM b with
+          | some (h, m, _) => (V.list [.sym "ok", .list [.int h.version, .int h.nEntries, .int h.cdate, .int h.mdate, .int h.adate],
+                                       .hex (Wire.maskBytes m)]).render
+          | none => (V.err "raised").render)
       | "file.new", [.int now] => (st, (V.hex (newFile now)).render)
       | _, _ =>
         match handle cmd args with
